@@ -1,9 +1,9 @@
 /-
   Helper lemmas for C13, layer 9: the `visible_if` decision.
-  * the expression the loader evaluates (`md.condition and not md.condition(obj)`, read through `not`)
-    against `Vis.visible`, for every value the condition may return;
-  * on layouts without falsy condition callables the normalisation of the real entry points is the
-    identity.
+  * the expression the loader evaluates (`md.condition is not None and not md.condition(obj)`, read
+    through `not`) against `Vis.visible`, for every value the condition may return and every kind of
+    callable (a callable that is itself a false value included: D36, repaired);
+  * its effect on a test, a suite class, a module.
 -/
 import LccModel.Lemmas.LoaderDunder
 
@@ -15,82 +15,18 @@ theorem pyAnd_truthy (a b : PyVal) : (pyAnd a b).truthy = (a.truthy && b.truthy)
   unfold pyAnd
   cases h : a.truthy <;> simp [h]
 
-/-- The expression the code evaluates, read by `not …`, is `Vis.visible` of the normalised condition:
-    for every value `c(obj)` may return. -/
-theorem Vis.shown_eq_norm (v : Vis) : v.shown = (normVis v).visible := by
+/-- `.hidden` is always one of the two `bool` singletons: `True` iff there is a condition and it returns a
+    false value — whatever the truth value of the callable itself. -/
+theorem Vis.hiddenAttr_bool (v : Vis) : v.hiddenAttr = .bool (!v.visible) := by
   cases v with
   | always => rfl
   | hidden => rfl
-  | cond st x =>
-    cases st
-    · simp only [Vis.shown, Vis.hiddenAttr, pyAnd_truthy, Vis.conditionObj, normVis, Vis.visible]
-      simp [PyVal.truthy]
-    · simp only [Vis.shown, Vis.hiddenAttr, pyAnd_truthy, pyNot_truthy, Vis.conditionObj, Vis.result, normVis, Vis.visible]
-      simp [PyVal.truthy]
+  | cond st x => cases st <;> rfl
 
-/-- `.hidden` is `None` (no condition), one of the two `bool` singletons, or the falsy callable itself. -/
-theorem Vis.hiddenAttr_cases (v : Vis) :
-    v.hiddenAttr = .none ∨ (∃ b, v.hiddenAttr = .bool b) ∨ (v.falsyCallable = true ∧ v.hiddenAttr = .objBool false) := by
-  cases v with
-  | always => exact .inl rfl
-  | hidden => exact .inr (.inl ⟨true, rfl⟩)
-  | cond st x =>
-    cases st
-    · exact .inr (.inr ⟨rfl, rfl⟩)
-    · exact .inr (.inl ⟨!x.truthy, rfl⟩)
-
-theorem normVis_eq_self {v : Vis} (h : v.falsyCallable = false) : normVis v = v := by
-  cases v with
-  | always => rfl
-  | hidden => rfl
-  | cond st x => cases st <;> simp_all [Vis.falsyCallable, normVis]
-
-theorem normTests_eq_self : ∀ (ts : List TestDecl), noFalsyTests ts = true → normTests ts = ts
-  | [], _ => rfl
-  | t :: ts, h => by
-    simp only [noFalsyTests, List.all_cons, Bool.and_eq_true, Bool.not_eq_true'] at h
-    have ih := normTests_eq_self ts (by simpa [noFalsyTests] using h.2)
-    simp only [normTests, normTest, normVis_eq_self h.1, ih]
-
-mutual
-theorem normCls_eq_self : ∀ (c : Cls), noFalsyCls c = true → normCls c = c
-  | .mk h tests subs, hn => by
-    simp only [noFalsyCls, Bool.and_eq_true, Bool.not_eq_true'] at hn
-    simp only [normCls, normHead, normVis_eq_self hn.1.1, normTests_eq_self tests hn.1.2, normClsList_eq_self subs hn.2]
-theorem normClsList_eq_self : ∀ (cs : List Cls), noFalsyClsList cs = true → normClsList cs = cs
-  | [], _ => rfl
-  | c :: cs, hn => by
-    simp only [noFalsyClsList, Bool.and_eq_true] at hn
-    simp only [normClsList, normCls_eq_self c hn.1, normClsList_eq_self cs hn.2]
-end
-
-theorem normInfo_eq_self : ∀ (i : Option SuiteInfo), noFalsyInfo i = true → normInfo i = i
-  | none, _ => rfl
-  | some i, h => by
-    simp only [noFalsyInfo, Bool.not_eq_true'] at h
-    simp only [normInfo, normVis_eq_self h]
-
-theorem normModule_eq_self (m : Module) (h : noFalsyModule m = true) : normModule m = m := by
-  simp only [noFalsyModule, Bool.and_eq_true] at h
-  simp only [normModule, normInfo_eq_self _ h.1.1, normTests_eq_self _ h.1.2, normClsList_eq_self _ h.2]
-
-theorem normModules_eq_self : ∀ (ms : List Module), noFalsyModules ms = true → normModules ms = ms
-  | [], _ => rfl
-  | m :: ms, h => by
-    simp only [noFalsyModules, Bool.and_eq_true] at h
-    simp only [normModules, normModule_eq_self m h.1, normModules_eq_self ms h.2]
-
-mutual
-theorem normDir_eq_self : ∀ (d : Dir), noFalsyDir d = true → normDir d = d
-  | .mk n mods dirs, h => by
-    simp only [noFalsyDir, Bool.and_eq_true] at h
-    simp only [normDir, normModules_eq_self mods h.1, normDirs_eq_self dirs h.2]
-theorem normDirs_eq_self : ∀ (ds : List Dir), noFalsyDirs ds = true → normDirs ds = ds
-  | [], _ => rfl
-  | d :: ds, h => by
-    simp only [noFalsyDirs, Bool.and_eq_true] at h
-    simp only [normDirs, normDir_eq_self d h.1, normDirs_eq_self ds h.2]
-end
+/-- The expression the (repaired) code evaluates, read by `not …`, is `Vis.visible`: for every value `c(obj)` may
+    return and whatever the truth value of the callable `c` itself. -/
+theorem Vis.shown_eq_visible (v : Vis) : v.shown = v.visible := by
+  simp [Vis.shown, Vis.hiddenAttr_bool, PyVal.truthy]
 
 /-! ### The three levels: what a `visible_if` value does to a test, a class, a module -/
 
